@@ -457,6 +457,7 @@ pub fn scenario(g: &GenCfg) -> BoxedStrategy<Scenario> {
                         txs,
                         grevm: GrevmCfg { concurrency, ..Default::default() },
                         faults: vec![],
+                        raw_faults: vec![],
                         schedule: if free { None } else { Some(sched) },
                         db_yields: db_yields && !free,
                     }
